@@ -496,4 +496,64 @@ example : curveAt (sortPairs (List.zip [4, 0, 2] [-1, 0, 1])) 1 = 1 / 2 ∧ curv
     curveAt (sortPairs (List.zip [4, 0, 2] [-1, 0, 1])) (-5) = 0 ∧ curveAt (sortPairs (List.zip [4, 0, 2] [-1, 0, 1])) 9 = -1 := by
   decide +kernel
 
+/-! ### z-score normalisation -/
+
+/-- the line through `(mean + sd·tt, y1)` and `(mean + sd·ft, y2)` is the line through `(tt, y1)` and `(ft, y2)` read in z units `(x − mean) / sd` -/
+theorem lin_zscore (mean sd tt ft y1 y2 x : Rat) (hsd : sd ≠ 0) (htf : ft - tt ≠ 0) :
+    lin (mean + sd * tt) (mean + sd * ft) y1 y2 x = lin tt ft y1 y2 ((x - mean) / sd) := by
+  unfold lin
+  have h1 : mean + sd * ft - (mean + sd * tt) = sd * (ft - tt) := by ring
+  rw [h1]
+  field_simp
+  ring
+
+/-- the statistics the z-score commands use: the mean and the population variance of the non-missing cells -/
+theorem meanL_eq (xs : List Rat) (h : xs ≠ []) : meanL xs = some (xs.sum / (xs.length : Rat)) := by
+  unfold meanL
+  have : xs.isEmpty = false := by cases xs <;> simp_all
+  simp [this, sumL, List.sum_eq_foldl]
+
+theorem varL_eq (xs : List Rat) (h : xs ≠ []) :
+    varL xs = some ((xs.map fun x => (x - xs.sum / (xs.length : Rat)) * (x - xs.sum / (xs.length : Rat))).sum / (xs.length : Rat)) := by
+  unfold varL
+  rw [meanL_eq xs h]
+  simp only
+  rw [meanL_eq _ (by simpa using h)]
+  simp
+
+/-- **NormalizeZScore, cell by cell**: with `m` the mean and `v` the population variance of the non-missing cells and `sd = sqrt v ≠ 0`, a present cell holding `x`
+is mapped to the line through `(tt, end)` and `(ft, start)` evaluated at the z-score `(x − m) / sd`, limited to `[start, end]`; missing cells stay missing -/
+theorem normalizeZScore_spec (sqrt : Rat → Rat) (a r : Arr) (tt ft s e : Rat) (hv : a.valid ≠ [])
+    (m v : Rat) (hm : m = a.valid.sum / (a.valid.length : Rat))
+    (hvar : v = (a.valid.map fun x => (x - m) * (x - m)).sum / (a.valid.length : Rat))
+    (hsd : sqrt v ≠ 0) (htf : ft - tt ≠ 0)
+    (h : zScoreBody sqrt a tt ft s e = .ok r) :
+    r.shape = a.shape ∧
+    r.vis = a.cells.map fun c => if c.mask then none else some (clampHiLo s e (lin tt ft e s ((c.val - m) / sqrt v))) := by
+  have hM : meanL a.valid = some m := by rw [hm]; exact meanL_eq _ hv
+  have hV : varL a.valid = some v := by rw [hvar, hm]; exact varL_eq _ hv
+  unfold zScoreBody at h
+  rw [hM, hV] at h
+  simp only [Except.ok.injEq] at h
+  subst h
+  have hd : (m + sqrt v * ft) - (m + sqrt v * tt) ≠ 0 := by
+    intro hh
+    have : sqrt v * (ft - tt) = 0 := by linarith
+    rcases mul_eq_zero.mp this with h0 | h0
+    · exact hsd h0
+    · exact htf h0
+  refine ⟨rfl, ?_⟩
+  simp only [Arr.vis, Arr.insure, Arr.mapCells, linMap_cells _ _ _ _ _ hd, List.map_map]
+  apply List.map_congr_left
+  intro c _
+  cases hmk : c.mask
+  · simp only [Function.comp, Cell.vis, Cell.insure, hmk, Bool.false_eq_true, if_false]
+    rw [lin_zscore _ _ _ _ _ _ _ hsd htf]
+  · simp [Cell.vis, Cell.insure, hmk]
+
+/-- non-vacuity: the field [0, 2, 4, 6] (mean 3, variance 5) under a deviation function returning 2, thresholds -1 and 1 -/
+example : zScoreBody (fun _ => 2) ⟨.float, [4], [⟨0, false⟩, ⟨2, false⟩, ⟨4, false⟩, ⟨6, false⟩]⟩ (-1) 1 0 1 =
+    .ok ⟨.float, [4], [⟨1, false⟩, ⟨3 / 4, false⟩, ⟨1 / 4, false⟩, ⟨0, false⟩]⟩ := by
+  decide +kernel
+
 end MPilot.C08
